@@ -348,7 +348,7 @@ def r_merge_flat(ck: Checker) -> None:
              and norm(st.value.left) == norm(st.targets[0])}
         for st in walk_body(loops[0].body):
             if isinstance(st, ast.Assign) and norm(st.targets[0]) in accs and isinstance(st.value, ast.Call) and dotted(st.value.func) in ("merge_origins", "MultiOrigin"):
-                ck.violation("R-MERGE-FLAT", c, st, what, construct=f"concat_origins: on one path the accumulator becomes {norm(st.value)[:50]} instead of accumulator + next: "
+                ck.violation("R-MERGE-FLAT", c, st, what, positive=True, construct=f"concat_origins: on one path the accumulator becomes {norm(st.value)[:50]} instead of accumulator + next: "
                              "the result is no longer the left fold of + over the operands")
                 return
     if not ok and not any("+" in norm(x) or "add" in norm(x) for x in c.node.body):
